@@ -132,6 +132,10 @@ func Quiesce() {
 	}
 }
 
+// WhenStuck runs f once no other goroutine can make progress (engine) / after a grace period (native).
+// It models an environment watchdog such as "the manager cancels a sync that stopped progressing".
+func WhenStuck(f func()) { time.AfterFunc(300*time.Millisecond, f) }
+
 func Yield() { runtime.Gosched(); time.Sleep(time.Millisecond) }
 
 func NumBlocked() int    { return 0 }
